@@ -135,6 +135,7 @@ var aliasLeafTypes = []string{
 	"*int", "*string", "**int", "*[]int", "*map[string]int", "*[2]int", "*Stamp", "*time.Time", "net.IP", "Names", "Limits",
 	"Tagged", "*Tagged", "[]Tagged", "map[string]Tagged", "[1]Tagged",
 	"[]Tree", "map[string]Tree", "*Tree",
+	"PKeyMap", "ArrKeyMap", "*PKeyMap",
 	"int", "string", "Stamp",
 }
 
@@ -381,7 +382,7 @@ func runC02(c C02Case) vrt.Verdict {
 func TestC02Compose(t *testing.T) {
 	vrt.Check(t, vrt.Prop[C02Case]{
 		ID: "C02", Name: "compose",
-		Rule: "reflect-built config types biased to aliasable leaves (maps, slices with spare capacity, pointers, nested pointer structs, recursive element values nested up to ~120 levels deep), defaults and 0..4 layers, with some leaves physically shared between the defaults and a layer or between two layers; " +
+		Rule: "reflect-built config types biased to aliasable leaves (maps, slices with spare capacity, pointers, nested pointer structs, recursive element values nested up to ~120 levels deep, maps whose KEYS hold pointers), defaults and 0..4 layers, with some leaves physically shared between the defaults and a layer or between two layers; " +
 			"oracles: address-range disjointness of the stacked config from defaults, every source value and a second stack; scribbling over a stacked config leaves inputs and other stacks unchanged; scribbling over inputs leaves stacks unchanged; two stacks are equal; " +
 			"non-trivial = a layer sets a map/slice/pointer leaf and (inputs are aliased or >=3 reference leaves are set); distinct = distinct case JSON",
 		Assumptions: []string{"memory behind unexported fields (time.Time's location pointer) is not examined: the statement says reachable through exported fields", "chan and func values are shared by identity as documented"},
